@@ -362,8 +362,17 @@ func localStores(addr ssa.Value) ([]ssa.Value, bool) {
 					}
 				}
 			case *ssa.DebugRef:
+			case *ssa.FieldAddr, *ssa.IndexAddr:
+				// reading a component is a read; writing one (or leaking its address) makes the
+				// variable's content unknown
+				if !onlyRead(in.(ssa.Value)) {
+					ok = false
+				}
 			case ssa.CallInstruction:
-				// address passed to a call: the callee may assign through it
+				// address passed to a call: the callee may assign through it — unless it only reads
+				if calleeOnlyReads(in, a) {
+					continue
+				}
 				vals = append(vals, escapedThrough{in, a}.asValue())
 			default:
 				ok = false
@@ -430,6 +439,12 @@ func AccessPath(v ssa.Value) (string, bool) {
 		}
 		return "free:" + x.Name(), true
 	case *ssa.Alloc:
+		// a parameter spilled to a local (address taken / captured): one whole store, of the parameter
+		if vals, ok := localStores(x); ok && len(vals) == 1 {
+			if prm, isP := vals[0].(*ssa.Parameter); isP {
+				return "&" + prm.Name(), true
+			}
+		}
 		return fmt.Sprintf("&local(%s@%p)", x.Comment, x), true
 	case *ssa.Global:
 		return "&global:" + x.Name(), true
@@ -620,4 +635,43 @@ func RetVal(ret *ssa.Return, i int) ssa.Value {
 		return last
 	}
 	return v
+}
+
+// onlyRead: the address v (of a component of a local) is only loaded from, directly or through
+// further component addresses.
+func onlyRead(v ssa.Value) bool {
+	refs := v.Referrers()
+	if refs == nil {
+		return true
+	}
+	for _, r := range *refs {
+		switch in := r.(type) {
+		case *ssa.UnOp, *ssa.DebugRef:
+		case *ssa.FieldAddr, *ssa.IndexAddr:
+			if !onlyRead(in.(ssa.Value)) {
+				return false
+			}
+		default:
+			return false
+		}
+	}
+	return true
+}
+
+// calleeOnlyReads: the address a is passed to a statically known callee with a body that neither
+// stores through the corresponding parameter (or its components) nor hands it on.
+func calleeOnlyReads(site ssa.CallInstruction, a ssa.Value) bool {
+	g := site.Common().StaticCallee()
+	if g == nil || g.Blocks == nil {
+		return false
+	}
+	for i, arg := range site.Common().Args {
+		if arg != a {
+			continue
+		}
+		if i >= len(g.Params) || !onlyRead(g.Params[i]) {
+			return false
+		}
+	}
+	return true
 }
